@@ -1,5 +1,564 @@
 import QModel.Core
-/-! C20 — model (not built yet) -/
+import QGen.C20
+/-!
+# C20 — schedule acceptance (model of quara/qcircuit/experiment.py validation, setters,
+`calc_prob_dist`, and the four tomography classes' schedule handling)
+
+The model mirrors the code as it is:
+
+* `validateItem`   = `Experiment._validate_schedule_item` (same sequence of tests, the Python exception
+  type of each failing test), on a small universe of Python values (`PyVal`: `bool` is not `int`);
+* `validateOrder`  = `Experiment._validate_schedule_order`;
+* `validateSchedules` = `Experiment._validate_schedules`: first failing schedule decides, item errors
+  before order errors, *including* the stale loop variable `j`: a non-iterable schedule raises
+  `TypeError` inside the `try`, the handler formats `j`, which is unbound (→ `UnboundLocalError`) unless an
+  earlier schedule left a value in it;
+* `construct`, `setList`, `setSchedules` = constructor and setters (validate first, assign on success);
+* `calcProbDist` = `Experiment.calc_prob_dist` (index check, `None` placeholders, composition from the state
+  outwards with the type dispatch of `operators._compose_qoperations`, final `.ps`);
+* `tomoCtor` = the schedule handling at the head of `StandardQst/Povmt/Qpt/Qmpt.__init__`.
+
+All literal tables (`kinds`, `minLen`, …, the positional tests of the tomography classes and the lists they
+hand to `Experiment`) come from `QGen.C20`, regenerated from the source on every run.
+-/
 namespace QM.C20
-def handle (_args : List String) : Option String := none
+
+/-! ## Python values, items, schedules -/
+
+inductive PyVal
+  | str (s : String)
+  | int (i : Int)
+  | bool (b : Bool)
+  | none
+  | float
+  | other
+deriving Repr, DecidableEq
+
+inductive Item
+  | nonTuple                   -- `type(item) != tuple`: None, list, str, int, …
+  | tuple (fs : List PyVal)
+deriving Repr, DecidableEq
+
+inductive Schedule
+  | nonIterable                -- `enumerate(schedule)` raises TypeError (None, int, …)
+  | items (l : List Item)
+deriving Repr, DecidableEq
+
+/-- the well-formed item `(name, idx)` -/
+def Item.mk (name : String) (idx : Int) : Item := .tuple [.str name, .int idx]
+
+inductive PyExc
+  | typeError | valueError | indexError | keyError | attributeError
+deriving Repr, DecidableEq
+
+def PyExc.toString : PyExc → String
+  | .typeError => "TypeError" | .valueError => "ValueError" | .indexError => "IndexError"
+  | .keyError => "KeyError" | .attributeError => "AttributeError"
+
+/-! ## tables and object lists -/
+
+structure Tables where
+  kinds : List String
+  needNonEmpty : List String
+  minLen : Nat
+  firstKind : String
+  lastKinds : List String
+  limits : List (String × Nat)
+deriving Repr, DecidableEq
+
+/-- the tables of the code as it is (generated) -/
+def tables : Tables :=
+  { kinds := QGen.C20.kinds, needNonEmpty := QGen.C20.needNonEmpty, minLen := QGen.C20.minLen,
+    firstKind := QGen.C20.firstKind, lastKinds := QGen.C20.lastKinds, limits := QGen.C20.limits }
+
+/-- an object list: `none` = the `None` placeholder, `some m` = an object with `m` outcomes
+(states and gates: `m = 1`) -/
+abbrev ObjList := List (Option Nat)
+
+structure Lists where
+  state : ObjList
+  povm : ObjList
+  gate : ObjList
+  mprocess : ObjList
+deriving Repr, DecidableEq
+
+/-- `objdict[name]` / `key_map[name]`: the dict has exactly these four keys -/
+def Lists.get? (L : Lists) (name : String) : Option ObjList :=
+  if name = "state" then some L.state
+  else if name = "povm" then some L.povm
+  else if name = "gate" then some L.gate
+  else if name = "mprocess" then some L.mprocess
+  else none
+
+/-! ## `_validate_schedule_item` -/
+
+/-- returns the item's kind on success (used by the order check afterwards) -/
+def validateItem (T : Tables) (L : Lists) : Item → Except PyExc String
+  | .nonTuple => .error .typeError
+  | .tuple [name, idx] =>
+    match name with
+    | .str s =>
+      match idx with
+      | .int i =>
+        if !T.kinds.contains s then .error .valueError
+        else match L.get? s with
+          | none => .error .keyError
+          | some l =>
+            if T.needNonEmpty.contains s && l.isEmpty then .error .indexError
+            else if 0 ≤ i ∧ i < (l.length : Int) then .ok s
+            else .error .indexError
+      | _ => .error .typeError
+    | _ => .error .typeError
+  | .tuple _ => .error .valueError
+
+/-- the loop `for j, item in enumerate(schedule)`; error = (j, exception) -/
+def validateItems (T : Tables) (L : Lists) : List Item → Nat → Except (Nat × PyExc) (List String)
+  | [], _ => .ok []
+  | it :: rest, j =>
+    match validateItem T L it with
+    | .error e => .error (j, e)
+    | .ok n =>
+      match validateItems T L rest (j + 1) with
+      | .error e => .error e
+      | .ok ns => .ok (n :: ns)
+
+/-! ## `_validate_schedule_order` (on the kinds of the already validated items) -/
+
+inductive OrderErr
+  | tooShort
+  | first
+  | last
+  | tooMany (kind : String)
+  | pyIndex          -- `schedule[0]` on an empty schedule (only if `minLen = 0`): IndexError escapes
+deriving Repr, DecidableEq
+
+def OrderErr.toString : OrderErr → String
+  | .tooShort => "tooShort" | .first => "first" | .last => "last"
+  | .tooMany k => s!"tooMany:{k}" | .pyIndex => "pyIndex"
+
+def checkLimits (names : List String) : List (String × Nat) → Except OrderErr Unit
+  | [] => .ok ()
+  | (k, n) :: rest => if names.count k ≥ n then .error (.tooMany k) else checkLimits names rest
+
+def validateOrder (T : Tables) (names : List String) : Except OrderErr Unit :=
+  if names.length < T.minLen then .error .tooShort
+  else match names.head?, names.getLast? with
+    | some f, some l =>
+      if f ≠ T.firstKind then .error .first
+      else if !T.lastKinds.contains l then .error .last
+      else checkLimits names T.limits
+    | _, _ => .error .pyIndex
+
+/-! ## `_validate_schedules` -/
+
+inductive Err
+  | item (i j : Nat) (e : PyExc)      -- QuaraScheduleItemError
+  | order (i : Nat) (r : OrderErr)    -- QuaraScheduleOrderError
+  | unbound                           -- UnboundLocalError (`j` in the handler, non-iterable schedule)
+  | escaped (e : PyExc)               -- an exception that is not converted
+deriving Repr, DecidableEq
+
+def Err.toString : Err → String
+  | .item i j e => s!"item {i} {j} {e.toString}"
+  | .order i r => s!"order {i} {r.toString}"
+  | .unbound => "unbound"
+  | .escaped e => s!"escaped {e.toString}"
+
+/-- `stale` = value left in the function-local `j` by earlier schedules -/
+def validateSchedulesAux (T : Tables) (L : Lists) : List Schedule → Nat → Option Nat → Except Err Unit
+  | [], _, _ => .ok ()
+  | .nonIterable :: _, i, stale =>
+    match stale with
+    | none => .error .unbound
+    | some j => .error (.item i j .typeError)
+  | .items its :: rest, i, stale =>
+    match validateItems T L its 0 with
+    | .error (_, .keyError) => .error (.escaped .keyError)
+    | .error (j, e) => .error (.item i j e)
+    | .ok names =>
+      match validateOrder T names with
+      | .error .pyIndex => .error (.escaped .indexError)
+      | .error r => .error (.order i r)
+      | .ok () =>
+        validateSchedulesAux T L rest (i + 1) (if its.isEmpty then stale else some (its.length - 1))
+
+def validateSchedules (T : Tables) (L : Lists) (ss : List Schedule) : Except Err Unit :=
+  validateSchedulesAux T L ss 0 none
+
+/-! ## constructor and setters -/
+
+structure ExpState where
+  lists : Lists
+  schedules : List Schedule
+deriving Repr, DecidableEq
+
+def construct (T : Tables) (L : Lists) (ss : List Schedule) : Except Err ExpState :=
+  match validateSchedules T L ss with
+  | .error e => .error e
+  | .ok () => .ok { lists := L, schedules := ss }
+
+inductive Which | state | povm | gate | mprocess
+deriving Repr, DecidableEq
+
+def Lists.set (L : Lists) : Which → ObjList → Lists
+  | .state, v => { L with state := v }
+  | .povm, v => { L with povm := v }
+  | .gate, v => { L with gate := v }
+  | .mprocess, v => { L with mprocess := v }
+
+inductive Op
+  | setList (w : Which) (v : ObjList)
+  | setSchedules (ss : List Schedule)
+deriving Repr, DecidableEq
+
+/-- one setter call: validate against the would-be state, assign only on success -/
+def step (T : Tables) (st : ExpState) : Op → Except Err ExpState
+  | .setList w v =>
+    match validateSchedules T (st.lists.set w v) st.schedules with
+    | .error e => .error e
+    | .ok () => .ok { st with lists := st.lists.set w v }
+  | .setSchedules ss =>
+    match validateSchedules T st.lists ss with
+    | .error e => .error e
+    | .ok () => .ok { st with schedules := ss }
+
+/-- a history of setter calls; a failing call leaves the state unchanged (the exception is caught by the caller).
+Returns the per-call results and the final state. -/
+def runOps (T : Tables) : ExpState → List Op → List (Option Err) × ExpState
+  | st, [] => ([], st)
+  | st, o :: os =>
+    match step T st o with
+    | .error e => let (rs, f) := runOps T st os; (some e :: rs, f)
+    | .ok st' => let (rs, f) := runOps T st' os; (none :: rs, f)
+
+/-! ## `calc_prob_dist` -/
+
+/-- run-time type of an intermediate composition result, with the outcome shape where there is one -/
+inductive QT
+  | state
+  | gate
+  | povm (m : Nat)
+  | mproc (m : Nat)
+  | ens (shape : List Nat)     -- StateEnsemble
+  | dist (shape : List Nat)    -- MultinomialDistribution
+deriving Repr, DecidableEq
+
+inductive CalcErr
+  | badIndexType               -- TypeError: schedule_index not an int
+  | badIndex                   -- IndexError: schedule_index out of range
+  | isNone (pos : Nat)         -- ValueError "...s[i] is None" raised at item `pos`
+  | py (e : PyExc)             -- anything else (unpacking, lookup, composition, `.ps`)
+deriving Repr, DecidableEq
+
+def CalcErr.toString : CalcErr → String
+  | .badIndexType => "badIndexType" | .badIndex => "badIndex"
+  | .isNone p => s!"isNone {p}" | .py e => s!"py {e.toString}"
+
+/-- Python list indexing with an `int` (negative indices wrap) -/
+def pyIndex {α : Type} (l : List α) (i : Int) : Option α :=
+  if 0 ≤ i then l[i.toNat]? else if -i ≤ (l.length : Int) then l[l.length - (-i).toNat]? else none
+
+def qtOf (name : String) (m : Nat) : QT :=
+  if name = "state" then .state else if name = "gate" then .gate
+  else if name = "povm" then .povm m else .mproc m
+
+/-- the loop over the schedule: look every object up, reject `None`; result in schedule order -/
+def lookupTargets (L : Lists) : List Item → Nat → Except CalcErr (List QT)
+  | [], _ => .ok []
+  | .tuple [.str k, .int i] :: rest, pos =>
+    match L.get? k with
+    | none => .error (.py .keyError)
+    | some l =>
+      match pyIndex l i with
+      | none => .error (.py .indexError)
+      | some none => .error (.isNone pos)
+      | some (some m) =>
+        match lookupTargets L rest (pos + 1) with
+        | .error e => .error e
+        | .ok ts => .ok (qtOf k m :: ts)
+  | _ :: _, _ => .error (.py .typeError)      -- `k, i = item` / lookup fails
+
+def prodNat (l : List Nat) : Nat := l.foldr (· * ·) 1
+
+/-- `_compose_qoperations(elem1, elem2)`: type dispatch. Unless one side is a StateEnsemble both
+`composite_system` attributes are read first (a MultinomialDistribution has none). -/
+def compose (e1 e2 : QT) : Except PyExc QT :=
+  let isEns : QT → Bool := fun | .ens _ => true | _ => false
+  let isDist : QT → Bool := fun | .dist _ => true | _ => false
+  if !(isEns e1 || isEns e2) && (isDist e1 || isDist e2) then .error .attributeError
+  else match e1, e2 with
+    | .gate, .gate => .ok .gate
+    | .gate, .mproc m => .ok (.mproc m)
+    | .mproc m, .gate => .ok (.mproc m)
+    | .mproc m1, .mproc m2 => .ok (.mproc (m1 * m2))
+    | .gate, .state => .ok .state
+    | .gate, .ens sh => .ok (.ens sh)
+    | .mproc m, .state => .ok (.ens [m])
+    | .mproc m, .ens sh => .ok (.ens (sh ++ [m]))
+    | .povm m, .gate => .ok (.povm m)
+    | .povm m, .mproc m2 => .ok (.povm (m2 * m))
+    | .povm m, .state => .ok (.dist [m])
+    | .povm m, .ens sh => .ok (.dist (sh ++ [m]))
+    | _, _ => .error .typeError
+
+/-- `temp = element_list[-1]; for elem in reversed(element_list[:-1]): temp = compose(elem, temp)` where
+`element_list` is the schedule reversed: the fold runs over the schedule from its second item -/
+def composeFrom (temp : QT) : List QT → Except PyExc QT
+  | [] => .ok temp
+  | e :: rest =>
+    match compose e temp with
+    | .error x => .error x
+    | .ok t => composeFrom t rest
+
+/-- returns the shape of the distribution whose `.ps` is returned -/
+def calcProbDist (st : ExpState) (idx : PyVal) : Except CalcErr (List Nat) :=
+  match idx with
+  | .int i =>
+    if ¬ (0 ≤ i ∧ i < (st.schedules.length : Int)) then .error .badIndex
+    else match st.schedules[i.toNat]? with
+      | some (.items its) =>
+        match lookupTargets st.lists its 0 with
+        | .error e => .error e
+        | .ok [] => .error (.py .valueError)          -- compose_qoperations: fewer than two arguments
+        | .ok (t :: ts) =>
+          if ts.isEmpty then .error (.py .valueError)
+          else match composeFrom t ts with
+            | .error x => .error (.py x)
+            | .ok (.dist sh) => .ok sh
+            | .ok _ => .error (.py .attributeError)    -- `.ps` of a non-distribution
+      | _ => .error (.py .typeError)
+  | _ => .error .badIndexType
+
+/-! ## tomography classes: schedule handling at the head of `__init__` -/
+
+structure TomoSpec where
+  pos : List (Nat × String)     -- `schedule[p][0] != k or …` (left to right, short-circuit)
+  zero : Nat                    -- `schedule[zero][1] != 0`
+  lists : List Nat              -- states, povms, gates, mprocesses: 0 = [], 1 = [None], 2 = parameter
+deriving Repr, DecidableEq
+
+def qstSpec : TomoSpec := ⟨QGen.C20.qstPos, QGen.C20.qstZero, QGen.C20.qstLists⟩
+def povmtSpec : TomoSpec := ⟨QGen.C20.povmtPos, QGen.C20.povmtZero, QGen.C20.povmtLists⟩
+def qptSpec : TomoSpec := ⟨QGen.C20.qptPos, QGen.C20.qptZero, QGen.C20.qptLists⟩
+def qmptSpec : TomoSpec := ⟨QGen.C20.qmptPos, QGen.C20.qmptZero, QGen.C20.qmptLists⟩
+
+inductive Cls | qst | povmt | qpt | qmpt
+deriving Repr, DecidableEq
+
+def Cls.spec : Cls → TomoSpec
+  | .qst => qstSpec | .povmt => povmtSpec | .qpt => qptSpec | .qmpt => qmptSpec
+
+inductive TomoErr
+  | str                        -- ValueError of `_validate_schedules_str`
+  | exp (e : Err)              -- raised by the Experiment constructor
+  | value (i : Nat)            -- ValueError "schedules[i] is invalid"
+  | index                      -- IndexError: positional test on a short schedule
+  | unmodelled
+deriving Repr, DecidableEq
+
+def TomoErr.toString : TomoErr → String
+  | .str => "str" | .exp e => e.toString | .value i => s!"value {i}" | .index => "index"
+  | .unmodelled => "unmodelled"
+
+/-- the `or` chain: `some true` = some test fired, `none` = IndexError while evaluating it -/
+def posTests (s : List (String × Int)) : List (Nat × String) → Option Bool
+  | [] => some false
+  | (p, k) :: rest =>
+    match s[p]? with
+    | none => none
+    | some (n, _) => if n ≠ k then some true else posTests s rest
+
+def tomoValidateOne (sp : TomoSpec) (i : Nat) (s : List (String × Int)) : Except TomoErr Unit :=
+  match posTests s sp.pos with
+  | none => .error .index
+  | some true => .error (.value i)
+  | some false =>
+    match s[sp.zero]? with
+    | none => .error .index
+    | some (_, x) => if x ≠ 0 then .error (.value i) else .ok ()
+
+def tomoValidate (sp : TomoSpec) : List (List (String × Int)) → Nat → Except TomoErr Unit
+  | [], _ => .ok ()
+  | s :: rest, i =>
+    match tomoValidateOne sp i s with
+    | .error e => .error e
+    | .ok () => tomoValidate sp rest (i + 1)
+
+def Item.pair? : Item → Option (String × Int)
+  | .tuple [.str n, .int i] => some (n, i)
+  | _ => none
+
+def Schedule.pairs? : Schedule → Option (List (String × Int))
+  | .items its => its.mapM Item.pair?
+  | .nonIterable => none
+
+/-- the `schedules == "all"` expansions -/
+def allSchedules (c : Cls) (nStates nPovms : Nat) : List Schedule :=
+  match c with
+  | .qst => (List.range nPovms).map fun (i : Nat) => .items [Item.mk "state" 0, Item.mk "povm" i]
+  | .povmt => (List.range nStates).map fun (i : Nat) => .items [Item.mk "state" i, Item.mk "povm" 0]
+  | .qpt => (List.range nStates).flatMap fun (i : Nat) => (List.range nPovms).map fun (j : Nat) =>
+      .items [Item.mk "state" i, Item.mk "gate" 0, Item.mk "povm" j]
+  | .qmpt => (List.range nStates).flatMap fun (i : Nat) => (List.range nPovms).map fun (j : Nat) =>
+      .items [Item.mk "state" i, Item.mk "mprocess" 0, Item.mk "povm" j]
+
+def listOfCode (code n : Nat) : ObjList :=
+  if code = 0 then [] else if code = 1 then [none] else List.replicate n (some 2)
+
+/-- the lists the class hands to `Experiment` given its `states`/`povms` parameters of these sizes -/
+def tomoLists (sp : TomoSpec) (nStates nPovms : Nat) : Lists :=
+  { state := listOfCode (sp.lists.getD 0 0) nStates, povm := listOfCode (sp.lists.getD 1 0) nPovms,
+    gate := listOfCode (sp.lists.getD 2 0) 0, mprocess := listOfCode (sp.lists.getD 3 0) 0 }
+
+inductive SchedArg
+  | str (s : String)
+  | list (ss : List Schedule)
+deriving Repr, DecidableEq
+
+/-- head of `Standard*.__init__`: string check, `"all"` expansion, Experiment construction, class-specific test.
+Returns the schedules the experiment holds. -/
+def tomoCtor (T : Tables) (c : Cls) (nStates nPovms : Nat) (a : SchedArg) : Except TomoErr (List Schedule) :=
+  let go (ss : List Schedule) : Except TomoErr (List Schedule) :=
+    match construct T (tomoLists c.spec nStates nPovms) ss with
+    | .error e => .error (.exp e)
+    | .ok _ =>
+      match ss.mapM Schedule.pairs? with
+      | none => .error .unmodelled      -- unreachable after a successful construction (QProps: `pairs_of_accepted`)
+      | some ps =>
+        match tomoValidate c.spec ps 0 with
+        | .error e => .error e
+        | .ok () => .ok ss
+  match a with
+  | .str s =>
+    if !QGen.C20.supportedStrs.contains s then .error .str
+    else if s = "all" then go (allSchedules c nStates nPovms)
+    else .error .unmodelled             -- a supported string other than "all" would be iterated as a schedule list
+  | .list ss => go ss
+
+/-! ## driver (text protocol) -/
+
+def parseObjList? (s : String) : Option ObjList :=
+  if s = "-" then some []
+  else s.toList.mapM fun c =>
+    if c = 'N' then some none
+    else if c.isDigit then some (some (c.toNat - '0'.toNat)) else none
+
+def parseLists? (a b c d : String) : Option Lists := do
+  let a ← parseObjList? a; let b ← parseObjList? b; let c ← parseObjList? c; let d ← parseObjList? d
+  pure ⟨a, b, c, d⟩
+
+def parsePyVal? (s : String) : Option PyVal :=
+  match s.splitOn ":" with
+  | ["s", n] => some (.str n)
+  | ["i", n] => n.toInt?.map .int
+  | ["b", n] => if n = "1" then some (.bool true) else if n = "0" then some (.bool false) else none
+  | ["n"] => some .none
+  | ["f"] => some .float
+  | ["o"] => some .other
+  | _ => none
+
+/-- `X` | `T` (empty tuple) | `Tf,f,…` -/
+def parseItem? (s : String) : Option Item :=
+  if s = "X" then some .nonTuple
+  else if s = "T" then some (.tuple [])
+  else match s.toList with
+    | 'T' :: rest => ((String.ofList rest).splitOn ",").mapM parsePyVal? |>.map .tuple
+    | _ => none
+
+/-- `!` | `-` (empty) | items joined by `;` -/
+def parseSchedule? (s : String) : Option Schedule :=
+  if s = "!" then some .nonIterable
+  else if s = "-" then some (.items [])
+  else (s.splitOn ";").mapM parseItem? |>.map .items
+
+/-- `~` (no schedule) | schedules joined by `|` -/
+def parseSchedules? (s : String) : Option (List Schedule) :=
+  if s = "~" then some [] else (s.splitOn "|").mapM parseSchedule?
+
+def showPyVal : PyVal → String
+  | .str s => s!"s:{s}" | .int i => s!"i:{i}" | .bool b => if b then "b:1" else "b:0"
+  | .none => "n" | .float => "f" | .other => "o"
+
+def showItem : Item → String
+  | .nonTuple => "X"
+  | .tuple fs => "T" ++ ",".intercalate (fs.map showPyVal)
+
+def showSchedule : Schedule → String
+  | .nonIterable => "!"
+  | .items [] => "-"
+  | .items l => ";".intercalate (l.map showItem)
+
+def showSchedules (ss : List Schedule) : String :=
+  if ss.isEmpty then "~" else "|".intercalate (ss.map showSchedule)
+
+def showObjList (l : ObjList) : String :=
+  if l.isEmpty then "-" else String.join (l.map fun | none => "N" | some m => toString m)
+
+def showLists (L : Lists) : String :=
+  s!"{showObjList L.state} {showObjList L.povm} {showObjList L.gate} {showObjList L.mprocess}"
+
+def showRes (r : Except Err Unit) : String :=
+  match r with | .ok () => "ok" | .error e => e.toString
+
+def parseOp? (s : String) : Option Op :=
+  match s.splitOn "=" with
+  | ["S", v] => (parseObjList? v).map (.setList .state)
+  | ["P", v] => (parseObjList? v).map (.setList .povm)
+  | ["G", v] => (parseObjList? v).map (.setList .gate)
+  | ["M", v] => (parseObjList? v).map (.setList .mprocess)
+  | ["C", v] => (parseSchedules? v).map .setSchedules
+  | _ => none
+
+def parseCls? (s : String) : Option Cls :=
+  if s = "qst" then some .qst else if s = "povmt" then some .povmt
+  else if s = "qpt" then some .qpt else if s = "qmpt" then some .qmpt else none
+
+def handle (args : List String) : Option String :=
+  match args with
+  | ["exp", a, b, c, d, ss] => do
+      let L ← parseLists? a b c d
+      let ss ← parseSchedules? ss
+      some (showRes (validateSchedules tables L ss))
+  | ["item", a, b, c, d, it] => do
+      let L ← parseLists? a b c d
+      let it ← parseItem? it
+      match validateItem tables L it with
+      | .ok _ => some "ok"
+      | .error e => some e.toString
+  | ["order", names] => do
+      let names ← parseList? (fun s => some s) names
+      match validateOrder tables names with
+      | .ok () => some "ok"
+      | .error r => some r.toString
+  | "seq" :: a :: b :: c :: d :: ss :: ops => do
+      let L ← parseLists? a b c d
+      let ss ← parseSchedules? ss
+      let ops ← ops.mapM parseOp?
+      match construct tables L ss with
+      | .error e => some s!"ctor {e.toString}"
+      | .ok st =>
+        let (rs, f) := runOps tables st ops
+        let rtxt := "/".intercalate (rs.map fun | none => "ok" | some e => e.toString)
+        some s!"{rtxt} # {showLists f.lists} # {showSchedules f.schedules}"
+  | ["calc", a, b, c, d, ss, idx] => do
+      let L ← parseLists? a b c d
+      let ss ← parseSchedules? ss
+      let idx ← parsePyVal? idx
+      match construct tables L ss with
+      | .error e => some s!"ctor {e.toString}"
+      | .ok st =>
+        match calcProbDist st idx with
+        | .ok sh => some s!"ok {showList toString sh}"
+        | .error e => some e.toString
+  | ["tomo", cls, ns, np, kind, arg] => do
+      let c ← parseCls? cls
+      let ns ← parseNat? ns
+      let np ← parseNat? np
+      let a ← if kind = "str" then some (SchedArg.str arg)
+              else if kind = "list" then (parseSchedules? arg).map SchedArg.list else none
+      match tomoCtor tables c ns np a with
+      | .ok ss => some s!"ok {showSchedules ss}"
+      | .error e => some e.toString
+  | _ => none
+
 end QM.C20
